@@ -314,6 +314,9 @@ fn base_frames(ctx: &Ctx) -> Vec<Base> {
         (0x0000, 0x01, &[]),
         (0x0D0A, 0x3A, &[0x3A, 0x0D, 0x0A, 0x3A]), // bytes whose values are ':', CR, LF
     ];
+    // the two frames with the largest byte sums there are (66 045 and 65 790: beyond what 16 bits hold)
+    v.push(Base { addr: 0xFFFF, ty: 0xFF, data: vec![0xFF; 255] });
+    v.push(Base { addr: 0xFFFF, ty: 0xFF, data: vec![0xFF; 254] });
     for (a, t, d) in picks {
         v.push(Base { addr: a, ty: t, data: d.to_vec() });
     }
